@@ -109,3 +109,12 @@ CONTRACT[SP + 'get_full_phosphostatus_kappa_distribution'] = dict(
     self=mk_seqparams_phos(nsites=1, dmax='unset'), cases=[dict(self=mk_seqparams_phos(nsites=k, dmax='unset')) for k in (0, 1, 2, 3)],
     raises=[], modifies=[],
     ensures=['dist_ok(result, self.SeqObj.seq, self.SeqObj.len, self.SeqObj.phosphosites)'])
+
+# forwarders whose backend postcondition names a witness (the recoded string): the callee's ghost is visible as local("ghost_newseq")
+for sp_, be_ in [('get_kappa_X', 'kappa_X'), ('get_Omega', 'Omega')]:
+    forward(sp_, be_)
+    c_ = CONTRACT[SP + sp_]
+    c_.pop('ghost_locals', None)
+    c_['ensures'] = [e.replace('local("newseq")', 'local("ghost_newseq")') for e in c_['ensures']]
+    for cs_ in c_.get('cases', []):
+        cs_['ensures'] = [e.replace('local("newseq")', 'local("ghost_newseq")') for e in cs_.get('ensures', [])]
